@@ -339,6 +339,27 @@ class Tr:
         return self.e(n)
 
 
+class TrChkOrder(Tr):
+    """the thorough check of `_chk_order`: `_files_info[i][1]` is the sorting tuple (vector, time, position)"""
+    PROJ = {0: '.1', 1: '.2.1', 2: '.2.2'}
+
+    def e(self, n):
+        if isinstance(n, ast.Subscript) and isinstance(n.slice, ast.Constant) and n.slice.value in self.PROJ:
+            v = n.value
+            if isinstance(v, ast.Subscript) and isinstance(v.slice, ast.Constant) and v.slice.value == 1:
+                inner = v.value
+                if self.src(inner) == 'file_info':
+                    return 'file_info' + self.PROJ[n.slice.value]
+                if isinstance(inner, ast.Subscript) and self.src(inner.value) == 'self._files_info':
+                    return '((files)[%s]!)%s' % (self.e(inner.slice), self.PROJ[n.slice.value])
+        if isinstance(n, ast.Subscript) and self.src(n.value) == 'self._files_info' and not isinstance(n.slice, ast.Slice):
+            return '(files)[%s]!' % self.e(n.slice)
+        return super().e(n)
+
+    def ret(self, n):
+        return '()'
+
+
 class TrGetMeta(Tr):
     """the index block of get_meta: `return values[i]` reads the list (IndexError when out of range),
     `return default` is `none`"""
@@ -505,6 +526,27 @@ def translate():
              'the count checks of `DicomStack.get_shape` (dcmstack.py), from `n_files = …` to `num_time_points = …`, '
              'translated statement by statement; the numpy spacing test is the parameter `spacing_ok`; the appended '
              'return gives (slices per volume, time points, vector components)')
+    # ---- _chk_order: the thorough check (the triple loop after the two sorts)
+    f = find_func(ds, 'DicomStack', '_chk_order')
+    blk = None
+    if f is not None:
+        for s in f.body:
+            if isinstance(s, ast.For) and isinstance(s.target, ast.Name) and s.target.id == 'vec_idx':
+                blk = [s]
+    if blk is None:
+        missing.append('chk_order_check: loop `for vec_idx in range(num_vec_comps)` not found')
+    else:
+        tr = TrChkOrder({}, {})
+        # the branch that builds the message of the error only builds a message
+        tr.stmt_map = {'if file_info[1][2] != slice_positions[slice_idx]:':
+                       ['if (file_info.2.2 != (slice_positions)[slice_idx]!) then', '  throw PyErr.invalidStack']}
+        emit('chk_order_check', '(files : List (Int × Int × Int)) (slice_positions : List Int) '
+             '(files_per_vol num_time_points num_vec_comps : Nat) : Except PyErr Unit',
+             blk + [ast.parse('return 0').body[0]], tr,
+             'the thorough check of `DicomStack._chk_order` (dcmstack.py): the triple loop over vector components, '
+             'time points and slices that follows the two sorts; `files` are the sorting tuples (vector, time, '
+             'position) of `_files_info` in their order after the sorts; the branch that only builds the text of '
+             'the error message is the `throw`')
     # ---- get_data: trimming of unused time / vector axes
     f = find_func(ds, 'DicomStack', 'get_data')
     blk = None
